@@ -29,14 +29,8 @@ SiblingClauses(e) ==
 ClientInit == TraceInit /\ nx = 0
 
 ClientNext ==
-  /\ l <= TLen
-  /\ LET e == T.ev[l] IN
-       /\ CallEffect(e)
-       /\ ObsEffect(EvObs(e))
-       /\ viol' = viol \cup {<<c, l, Later>> :
-                     c \in (CallClauses(e) \cup PostClauses(e) \cup SiblingClauses(e)) \ Seen}
-       /\ nx' = (IF EvC(e) = CNext THEN nx + 1 ELSE nx)
-  /\ l' = l + 1 /\ tid' = tid
+  /\ Step(SiblingClauses(Ev))
+  /\ nx' = (IF EvC(Ev) = CNext THEN nx + 1 ELSE nx)
 
 ClientSpec == ClientInit /\ [][ClientNext]_cvars
 =============================================================================
